@@ -66,14 +66,14 @@ pub fn eval_truth(c: &TruthCase) -> (Vec<(String, String)>, bool, bool) {
     };
     // guard band around transition latitudes
     let (re, ro) = match rd {
-        RefDecode::Pos { rlat_e, rlat_o, .. } => (rlat_e, rlat_o),
+        RefDecode::Pos { rlat_e, rlat_o, .. } | RefDecode::ZoneMismatch { rlat_e, rlat_o } => (rlat_e, rlat_o),
         _ => (p1.0, p2.0),
     };
     if refcpr::near_transition(re) < GUARD || refcpr::near_transition(ro) < GUARD {
         return (out, false, true);
     }
     match rd {
-        RefDecode::ZoneMismatch => {
+        RefDecode::ZoneMismatch { .. } => {
             if let Some(p) = got {
                 out.push((format!("C05/truth/must_be_none/{cls}"), format!("even and odd reports lie in different longitude-zone counts, yet a position ({}, {}) was returned", p.latitude, p.longitude)));
             }
@@ -240,11 +240,12 @@ pub fn eval_raw(first: (u32, u32, u32), second: (u32, u32, u32)) -> (Vec<(String
             (out, true, false)
         }
         RefDecode::OtherLatOutOfRange => (out, false, true),
-        RefDecode::ZoneMismatch => {
-            // guard band is irrelevant here unless one latitude is at a transition
+        RefDecode::ZoneMismatch { rlat_e, rlat_o } => {
+            // a recovered latitude on a transition latitude (within the guard band) is left open
+            if refcpr::near_transition(rlat_e) < GUARD || refcpr::near_transition(rlat_o) < GUARD {
+                return (out, false, true);
+            }
             if let Some(p) = got {
-                let j_e = 2 * (59 * e.1 as i64 - 60 * o.1 as i64) + 131072;
-                let _ = j_e;
                 out.push((format!("C05/raw/zone_mismatch/{ord}"), format!("even and odd recovered latitudes have unequal longitude-zone counts, yet a position ({}, {}) was returned", p.latitude, p.longitude)));
             }
             (out, true, false)
@@ -344,8 +345,8 @@ pub fn eval_nl_probe(i: u32, j: u32, yz: u32) -> (Vec<(String, String)>, bool, b
             }
             (out, true, false)
         }
-        RefDecode::ZoneMismatch => {
-            if refcpr::near_transition(rlat) < GUARD {
+        RefDecode::ZoneMismatch { rlat_e, rlat_o } => {
+            if refcpr::near_transition(rlat) < GUARD || refcpr::near_transition(rlat_e) < GUARD || refcpr::near_transition(rlat_o) < GUARD {
                 return (out, false, true);
             }
             if let Some(p) = got {
